@@ -63,6 +63,9 @@ def patterns():
     P["req-query-separators"] = (lambda k: (REQ_HEAD % (b"?a=b" + b"&" * k + b"c=d") + b"\r\n", b""), "req", None)
     P["req-content-type-params"] = (lambda k: (b"POST / HTTP/1.1\r\nHost: a\r\nContent-Type: multipart/form-data" + b";" * k + b" boundary=BB\r\nContent-Length: 8\r\n\r\n--BB--\r\n", b""), "req", None)
     P["req-auth-digest-junk"] = (lambda k: (REQ_HEAD % b"" + b"Authorization: Digest " + b"x=\"y\"," * k + b" username=\"u\"\r\n\r\n", b""), "req", None)
+    P["res-chunk-line-blanks"] = (lambda k: (rq, RES + b"Transfer-Encoding: chunked\r\n\r\n" + b" " * k + b"5\r\nhello\r\n0\r\n\r\n"), "res", None)
+    P["res-chunk-line-tabs-cr"] = (lambda k: (rq, RES + b"Transfer-Encoding: chunked\r\n\r\n" + b"\t\r" * (k // 2) + b"5\r\nhello\r\n0\r\n\r\n"), "res", None)
+    P["req-chunk-line-blanks"] = (lambda k: (CH + b" " * k + b"5\r\nhello\r\n0\r\n\r\n", b""), "req", None)
     P["res-identity-body"] = (lambda k: (rq, RES + b"Content-Length: %d\r\n\r\n" % (8 * k) + b"abcdefgh" * k), "res", None)
     return P
 
@@ -127,8 +130,8 @@ def check(ctx):
             table["%s/%s" % (name, mode)] = {"k": ks, "blocks": w, "ratio_last_doubling": round(ratio, 2), "class": measured, "proved_class": cls}
             keys.add((name, mode, measured))
             expect = cls or "L"
-            if mode == "b" and name == "res-chunk-line-blanks-digits":
-                expect = None     # one byte per call: the probe sees at most the buffered line each time; class not proved for this delivery
+            # (res-chunk-line-blanks-digits is quadratic under both deliveries since /repo d2483dd: the probe also scans the buffered part of the line,
+            #  so one byte per call costs what the single chunk always cost -- the listed finding Q-chunkline)
             if expect is not None and measured != expect:
                 if expect == "L":
                     vf.violation(ctx, "superlinear-%s-%s" % (name, mode), {
